@@ -184,6 +184,9 @@ FILE_USERS = [
     lambda: file_user("u3", nokeys=True, rk=[], wk=[], pws=[("plaintext", "pw2")], ip=["c*"], xp=["cx"]),
     lambda: file_user("default", nopass=False, pws=[("plaintext", ROOT_PW)], ic=["*", "read"]),
     lambda: file_user("u2", pws=[("plaintext", "pw1"), ("plaintext", "pw1")], ic=["allCategories"], im=["allCommands"], rk=["allKeys", "a*"]),
+    # a hand-written file may flag a user nokeys and still list patterns (SETUSER never produces that): nokeys wins
+    lambda: file_user("u1", nokeys=True, pws=[("plaintext", "pw1")], rk=["a*"], wk=["*"]),
+    lambda: file_user("u2", nopass=True, nokeys=True, rk=["*"], wk=["b*"]),
 ]
 
 def file_histories(rng, n, table, length, prefix):
@@ -243,6 +246,15 @@ def lifecycle(rng, sid, table, variant):
     probe()
     s.cmd(1, "ACL", "DELUSER", rng.choice(["u2", "u1"])); U(s)
     probe()
+    if variant % 3 == 0:
+        # a user saved as nokeys gets patterns in memory; the merge of the file puts the flag back next to the patterns
+        s.cmd(1, "ACL", "SETUSER", "u1", "on", ">pw1", "+@all", "nokeys"); s.cmd(1, "ACL", "SETUSER", "u2", "on", "nopass", "+@all", "nokeys"); U(s)
+        s.cmd(1, "ACL", "SAVE"); U(s)
+        s.cmd(1, "ACL", "SETUSER", "u1", "~a*"); s.cmd(1, "ACL", "SETUSER", "u2", "%R~*", "%W~b*"); U(s)
+        s.cmd(2, "AUTH", "u1", "pw1"); s.cmd(3, "AUTH", "u2", "x"); U(s)
+        probe()
+        s.cmd(1, "ACL", "LOAD", ["MERGE", "REPLACE"][(variant // 3) % 2]); U(s)
+        probe()
     s.digest()
     return s
 
